@@ -70,6 +70,16 @@ EXTRA_SRC = {
     "x_ldup": "[1, 1, 2]", "x_sdup": "'aab'", "x_setnested": "<<[1], [2]>>",      # duplicates; collections as members
     "x_ihuge": "1" + "0" * 400,          # an int beyond the range of a decimal
 }
+# round 3: functions that answer properly when first called and improperly afterwards (each case builds
+# its values afresh, so "first" is the first call within the case).  A native that calls a function once
+# per element (a predicate, a comparison, a key) must test every answer, not the first one: the same class
+# as the loop guards of FormsOps!LaterForms, for the guards inside the built-in functions.
+LATE_SRC = {
+    "x_fnlate_bool": "do def n = 0; fn(a...) do n += 1; if n == 1 then TRUE else 'a' end end",
+    "x_fnlate_int": "do def n = 0; fn(a...) do n += 1; if n == 1 then 1 else 'a' end end",
+    "x_fnlate_err": "do def n = 0; fn(a...) do n += 1; if n == 1 then TRUE else error 'late' end end",
+}
+EXTRA_SRC.update(LATE_SRC)
 # round 2: values that are finite data but whose naive traversal is not - an int
 # with more digits than the host renders in one piece, collections that hold
 # themselves (directly, through a second collection, as a member of an object),
@@ -823,6 +833,8 @@ def function_jobs(run, sites, rng, quick, shapes):
             def more(a):
                 if a in HUGE_TAGS or a == "x_lhugedec":
                     return ["date", "dneg"]
+                if a in LATE_SRC:          # something to call them on more than once
+                    return ["l2", "x_l123", "set1", "map1"]
                 return ["l2", "set1", "map1"] if a in GRAPH_SRC else []
             for a in EXTRA_TAGS:
                 # (the 5000-digit int differs from 10^400 in its rendering only: three partners)
@@ -847,6 +859,8 @@ def function_jobs(run, sites, rng, quick, shapes):
     # ---- round 3: arguments bound by name
     pending, wide_named, nshapes = [], [], 0
     for s in reps:
+        if len([a for a in sites[s][1] if not a.endswith("...")]) > max(sh["n"] for sh in shapes):
+            BEYOND_MODEL.append(s)          # more parameters than FormsCall.cfg models: reported, not guessed at
         for names in shapes_for(shapes, sites[s][1]):
             what = shaped_site(s, names)
             nshapes += 1
@@ -890,6 +904,7 @@ def named_jobs(pending, fjobs, fres, rng, quick):
     return two + three, live, population
 
 
+BEYOND_MODEL = []
 QUICK_NAMED3 = 12000
 QUICK_NAMED_WIDE = 6000
 QUICK_ARITY3 = 40000
@@ -1099,8 +1114,8 @@ def run(run):
                         wide_jobs.append((fm, ("form", fm["text"], tags)))
         if quick:
             # the round-2 values always; a seeded sample of the others
-            keep = [wj for wj in wide_jobs if any(t in GRAPH_SRC for t in wj[1][2])]
-            others = [wj for wj in wide_jobs if not any(t in GRAPH_SRC for t in wj[1][2])]
+            keep = [wj for wj in wide_jobs if any(t in GRAPH_SRC or t in LATE_SRC for t in wj[1][2])]
+            others = [wj for wj in wide_jobs if not any(t in GRAPH_SRC or t in LATE_SRC for t in wj[1][2])]
             if len(others) > 12000:
                 others = rng.sample(others, 12000)
             wide_jobs = others + keep
@@ -1243,6 +1258,7 @@ def run(run):
     run.cov["call_shapes"] = {"decided_calls": len(shapes), "binding": sum(1 for sh in shapes if sh["err"] == ""),
                               "skipping": sum(1 for sh in shapes if sh["skips"]),
                               "function_shapes": nshapes,
+                              "functions_with_more_parameters_than_modelled": sorted(set(BEYOND_MODEL)),
                               "two_argument_shapes": sum(1 for p in pending if p[2] == 2),
                               "two_argument_shapes_reaching_the_body": live[2],
                               "three_argument_shapes": sum(1 for p in pending if p[2] == 3),
@@ -1260,7 +1276,7 @@ def run(run):
         "wall_factor": WALL_FACTOR, "stand_in_levels": LEVELS, "growth": GROWTH,
         "forms_cfg": "Forms_quick" if quick else "Forms_thorough",
         "graph_cfg": "FormsGraph_quick" if quick else "FormsGraph_thorough",
-        "round2_pool": sorted(GRAPH_SRC), "budget_s": BUDGET_S, "max_alone": MAX_ALONE,
+        "round2_pool": sorted(GRAPH_SRC), "round3_pool": sorted(LATE_SRC), "budget_s": BUDGET_S, "max_alone": MAX_ALONE,
         "function_arity": ("0-1 every site; 2 every distinct function; 3 " +
                            (f"seeded sample of {QUICK_ARITY3} over the functions with three or more parameters"
                             if quick else "every distinct function, exhaustive")),
@@ -1302,6 +1318,12 @@ def run(run):
         "beyond the fixed pool, every distinct function is also called with each value of a wider pool "
         "(nested lists, '(' as pattern text, an object with methods, functions of other arities, ...) as its "
         "single argument, and in the thorough tier with every pair holding at least one such value",
+        "round 3: FormsOps has both booleans in its pool and a family of forms (LaterForms) in which the pool value "
+        "reaches a guard on the second or third evaluation (loop and comprehension conditions, later operands of "
+        "and / or, elif, later elements to destructure, later spread arguments); the wide pool holds three functions "
+        "that answer properly on their first call only, for the guards inside natives that call a function per "
+        "element; coverage.guard_sites lists the `raise CklRuntimeError` statements of nodes.py no case of binding A "
+        "executed (two remain: reading a closed file input and an unreadable module file need the file system)",
         "the read-eval-print loop (ckl.repl.main, driven in-process by harness/repl.py) is given lines whose "
         "evaluation fails or yields values of every kind: no host exception may end the session",
     ]
